@@ -467,7 +467,7 @@ func genSynth(prog *Program, p *Pkg) (string, error) {
 				cl.Params = names
 				fmt.Fprintf(&body, "func %s(%s) bool { return %s }\n", cl.GoFn, strings.Join(ps, ", "), cl.GoExpr)
 			}
-			for _, m := range c.Modifies {
+			for _, m := range append(append([]*ModLoc{}, c.Modifies...), c.Records...) {
 				if m.Kind == "ghost" {
 					continue
 				}
